@@ -1,4 +1,4 @@
-import MpVerif.C19.LemmasRun
+import MpVerif.C19.LemmasSched
 /-!
 # C19 — property theorems
 
@@ -17,12 +17,21 @@ is refuted by three proved counterexamples below, each replayed on the real driv
 * `C19_counterexample_innocent_clash` one source name `c`, a two-level conversion (the shape produced by
   `if-then-else`, equality indicators, min/max … under the default acceptance): the second child of the
   first child and the first child of the second child are both `c_2_`;
-* `C19_counterexample_empty`          a copy that runs before its source cell has been named (what
-  `CopyLink::AddEntry`'s in-place extension of an earlier entry causes) leaves the target unnamed.
+* `C19_counterexample_empty`          a copy that runs before its source cell has been named leaves the
+  target unnamed.  Until repo commit 5f9dc1e the real converter produced such schedules (`CopyLink::AddEntry`
+  extended an earlier registered entry in place); since then `AddEntry` keeps the registration order
+  (`C19_addEntry_*_preserves_order`) and this theorem only shows that the feeding hypothesis is necessary for
+  arbitrary operation lists.
 
-What is proved instead (`C19_unique_*`, `C19_nonempty_partial`) is the property under explicit, decidable hypotheses
+What is proved instead (`C19_unique_*`, `C19_nonempty_*`) is the property under explicit, decidable hypotheses
 which the check evaluates on every real run; every violation observed on the real driver is attributed to
 exactly the hypothesis that fails.
+
+Non-emptiness after the fix: `C19_nonempty_topological` needs only the *structural* condition `topoB`
+(every link source is an initially named cell or the target of an earlier entry; no reference to the
+strings).  That the converter registers links in such an order for every model is not proved (the converter
+is not modelled); it is evaluated on every run (true in all runs since 5f9dc1e) and a run violating it is
+reported with its input.
 -/
 namespace MpVerif.C19
 
@@ -115,6 +124,53 @@ theorem C19_nonempty_partial : ∀ (ops : List Op) (st : St), wellFed st ops = t
         · simp [hd]
       rw [run_keeps as _ _ h1]; exact h1
     · exact ih (stepSt st a) hwf.2 o h
+
+/-- a purely structural condition implies `wellFed`: every operation's source (or target) is an initially
+named cell or the target of an earlier operation -/
+theorem C19_wellFed_of_topological (ops : List Op) (named : List Nat) (st : St)
+    (hn : ∀ c ∈ named, (st.get c).s ≠ []) (ht : topoB named ops = true) : wellFed st ops = true :=
+  topo_wellFed ops named st hn ht
+
+/-- non-emptiness from the structural condition alone -/
+theorem C19_nonempty_topological (ops : List Op) (named : List Nat) (st : St)
+    (hn : ∀ c ∈ named, (st.get c).s ≠ []) (ht : topoB named ops = true) :
+    ∀ o ∈ ops, ((run st ops).get o.dst).s ≠ [] :=
+  C19_nonempty_partial ops st (topo_wellFed ops named st hn ht)
+
+/-- `CopyLink::AddEntry` (with the last-registered guard) never reorders: the schedule after adding an
+entry executes the old schedule and then exactly the new entry's copies -/
+theorem C19_addEntry_copy_preserves_order (base : Nat → Nat) (S : List Entry) (link sn sb dn db len : Nat) :
+    schedOps base (addCopy S link sn sb dn db len) =
+      schedOps base S ++ expandCopy (base sn + sb) (base dn + db) len := by
+  unfold addCopy
+  split
+  · rename_i l sn' sb' dn' db' len' rest
+    by_cases h : l = link ∧ sn' = sn ∧ sb' + len' = sb ∧ dn' = dn ∧ db' + len' = db
+    · obtain ⟨h1, h2, h3, h4, h5⟩ := h
+      subst h1 h2 h3 h4 h5
+      simp [schedOps, Entry.ops, expandCopy_add, Nat.add_assoc]
+    · simp [h, schedOps, Entry.ops]
+  · simp [schedOps, Entry.ops]
+
+/-- the same for `One2ManyLink::AddEntry` (single source index, as asserted by `One2ManyLink`) -/
+theorem C19_addEntry_one2many_preserves_order (base : Nat → Nat) (S : List Entry) (link sn sb dn db dlen : Nat) :
+    schedOps base (addM2M S link sn sb 1 dn db dlen) =
+      schedOps base S ++ expandDistr (base sn + sb) 1 (base dn + db) dlen := by
+  unfold addM2M
+  split
+  · rename_i l sn' sb' slen' dn' db' dlen' rest
+    by_cases h1 : l = link ∧ sn' = sn ∧ sb' = sb ∧ slen' = 1 ∧ dn' = dn ∧ db' + dlen' = db
+    · obtain ⟨h0, h2, h3, h4, h5, h6⟩ := h1
+      subst h0 h2 h3 h4 h5 h6
+      simp [schedOps, Entry.ops, expandDistr_one_add_dst, Nat.add_assoc]
+    · by_cases h2 : l = link ∧ dn' = dn ∧ db' = db ∧ dlen' = dlen ∧ sn' = sn ∧ sb' + slen' = sb
+      · obtain ⟨g1, g2, g3, g4, g5, g6⟩ := h2
+        have h1' := h1
+        subst g1 g2 g3 g4 g5 g6
+        rw [if_neg h1', if_pos (by simp)]
+        simp [schedOps, Entry.ops, expandDistr_add_src, Nat.add_assoc]
+      · simp [h1, h2, schedOps, Entry.ops]
+  · simp [schedOps, Entry.ops]
 
 /-- non-emptiness fails without `wellFed`: a copy executed before its source is named
 (cells: 0 = named source `c`, 1 = intermediate item, 2 = delivered item) -/
@@ -259,6 +315,18 @@ theorem C19_counterexample_innocent_clash :
   · simp [ops, init, wellFed, step_s, step_n, Op.dst, Op.src, Op.lab, get_set_eq, get_set_ne, empty_get, cntLab, Lab.tok]
   · simp only [R, hE]
     decide
+
+/-! ### NameProvider -/
+
+/-- the Windows line-end test of `NameProvider::name` only inspects a byte at or after the start of the
+name it returns, hence inside the file buffer (repo commit f144d4f; before it the byte at offset -1 was
+read when the first line was empty) -/
+theorem C19_nameprovider_no_underread (offs : List Nat) (index k : Nat)
+    (h : winTestIdx offs index = some k) : offs.getD index 0 ≤ k := by
+  simp only [winTestIdx] at h
+  split at h
+  · simp only [Option.some.injEq] at h; omega
+  · simp at h
 
 /-! ### generic names -/
 
